@@ -481,6 +481,43 @@ Definition no_overlap (info : list entry) (i : N) (refs : list sref) : bool :=
   let L := sorted_translation (repl_refs info refs) i in
   ok_from [] L && forallb (ref_ok info i L) refs.
 
+(* the analogous condition for an aggregator (no theorem is proved about it; it only guards the
+   executable comparison of the two layers in the correspondence run): no spelling of a replicated
+   reference occurs in a spelling or rewritten form of another declared reference, nor the relative
+   spelling in its own rewritten forms *)
+Definition sref_same (a b : sref) : bool :=
+  match a, b with
+  | SComp _ s p f m, SComp _ s' p' f' m' => N.eqb s s' && String.eqb p p' && opt_str_eqb f f' && String.eqb m m'
+  | SOther t, SOther t' => String.eqb t t'
+  | _, _ => false
+  end.
+Definition ref_texts (info : list entry) (r : sref) : list string :=
+  match r with
+  | SComp a s p f m =>
+      (spell r :: compile_reference p f m (Some s) None :: compile_reference p f m None None ::
+       match repl_count info (s, p) with
+       | Some n => map (fun j => compile_reference p f m (Some s) (Some j)) (nseq n)
+       | None => []
+       end)%list
+  | SOther t => [t]
+  end.
+Definition agg_guard (info : list entry) (refs : list sref) : bool :=
+  forallb (fun r1 =>
+    match r1 with
+    | SComp _ s p f m =>
+        match repl_count info (s, p) with
+        | Some n1 =>
+            let kl := compile_reference p f m (Some s) None in
+            let ks := compile_reference p f m None None in
+            forallb (fun r2 =>
+              if sref_same r1 r2
+              then forallb (fun j => negb (occurs ks (compile_reference p f m (Some s) (Some j)))) (nseq n1)
+              else forallb (fun t => negb (occurs kl t) && negb (occurs ks t)) (ref_texts info r2)) refs
+        | None => true
+        end
+    | SOther _ => true
+    end) refs.
+
 (* ------------------------------------------------------------------ the checker of the correspondence *)
 Definition ocomp_eqb (a b : ocomp) : bool :=
   N.eqb (o_stage a) (o_stage b) && String.eqb (o_name a) (o_name b) &&
@@ -502,10 +539,9 @@ Definition struct_agrees_one (info : list entry) (c : tcomp) (sc : scomp) : bool
   forallb (fun st : socomp * ocomp =>
              let (so, o) := st in
              opt_N_eqb (so_replica so) (o_replica o) && N.eqb (so_stage so) (o_stage o) &&
-             let n := match alookup (sid sc) info with Some (Some n, _) => n | _ => 0%N end in
              let guard := match so_replica so with
                           | Some i => no_overlap info i (s_refs sc)
-                          | None => forallb (fun i => no_overlap info i (s_refs sc)) (nseq n)
+                          | None => agg_guard info (s_refs sc)
                           end in
              if guard then String.eqb (so_name so) (o_name o) &&
                            list_eqb String.eqb (map spell (so_refs so)) (o_refs o)
